@@ -490,9 +490,19 @@ def failure_protocol(check, prog, root):
             if not m or m.group(1) not in may_fail or m.group(1) == uname:
                 continue
             nsites += 1
-            nxt = st[i + 1][1] if i + 1 < len(st) else ''
-            ok = nxt.startswith('IF(') and FLAG in re.findall(r'[A-Z_][A-Z0-9_]*',
-                                                               nxt.split(')')[0] + ')')
+            # the flag may first be copied (`ierr = ifail`): the copies count
+            names = {FLAG}
+            k = i + 1
+            while k < len(st):
+                mm = re.match(r'^([A-Z_][A-Z0-9_]*)=([A-Z_][A-Z0-9_]*)$', st[k][1])
+                if mm and mm.group(2) in names:
+                    names.add(mm.group(1))
+                    k += 1
+                else:
+                    break
+            nxt = st[k][1] if k < len(st) else ''
+            ok = nxt.startswith('IF(') and bool(names & set(re.findall(
+                r'[A-Z_][A-Z0-9_]*', nxt.split(')')[0] + ')')))
             check.require(ok, 'E3-failure-propagated',
                           '%s::%s after CALL %s' % (os.path.basename(u.path), uname,
                                                     m.group(1)),
@@ -500,8 +510,7 @@ def failure_protocol(check, prog, root):
                               u.path, line),
                           fail_detail='the statement after the call is `%s`: when %s '
                           'gives up its results are undefined and the caller goes on '
-                          'with them' % (st[i + 1][1][:60] if i + 1 < len(st) else '',
-                                         m.group(1)))
+                          'with them' % (nxt[:60], m.group(1)))
     check.floor('E3b calls of routines that may report failure', nsites, 4)
     # (a) cleared on entry
     st = [(line, squash(t)) for line, t in entry.stmts]
